@@ -40,6 +40,7 @@ def tasks(tier):
     ts.append(("lists", 3))
     ts.append(("narrow",))
     ts.append(("justabove",))
+    ts.append(("calls",))
     ts.append(("extreme",))
     ts.append(("long", 0)); ts.append(("long", 1)); ts.append(("long", 2))
     ts.append(("seq",))
@@ -55,6 +56,13 @@ def check_case(case):
         import numpy as np
 
         inp = np.array([alpha.to_float(v) for v in x], dtype="float32" if case["carrier"] == "f4" else "float16")
+    elif case.get("carrier") in ("mai", "mai_nomask"):
+        import numpy as np
+
+        # integer-typed masked array (a packed variable): missing = masked with -999 underneath; with and without a mask array
+        miss = [v in (alpha.NAN, None) for v in x]
+        inp = np.ma.MaskedArray(np.array([-999 if m else int(v) for v, m in zip(x, miss)], dtype="int64"),
+                                mask=miss if (case["carrier"] == "mai" or any(miss)) else False)
     elif case.get("carrier") == "list":
         inp = alpha.pylist(x)
     else:
@@ -67,7 +75,12 @@ def check_case(case):
     for px in case.get("pre", ()):
         # earlier calls in the same process (other, longer records): nothing of them may leak into the judged call
         alpha.call(qartod.spike_test, alpha.nd(px), method=case["method"], **kw)
-    out = alpha.call(qartod.spike_test, inp, method=case["method"], **kw)
+    if case.get("positional"):
+        # the published parameter order: spike_test(inp, suspect_threshold, fail_threshold, method)
+        args = [inp, case["suspect"], case["fail"]] + ([case["method"]] if case["positional"] == 4 else [])
+        out = alpha.call(qartod.spike_test, *args, **({} if case["positional"] == 4 else dict(method=case["method"])))
+    else:
+        out = alpha.call(qartod.spike_test, inp, method=case["method"], **kw)
     acceptable = R.spike(alpha.ref(x), case["suspect"], case["fail"], case["method"])
     vs, obs = judge_flags(PROP, "spike_test", out, acceptable, n, extra_sig=f"method={case['method']}")
     nt = isinstance(acceptable, str) or alpha.is_nontrivial(acceptable, boring=(1, 2))
@@ -108,6 +121,16 @@ def run_task(task, acc):
                         for s_, f_ in ((1.0, 2.0), (0.5, None)):
                             yield dict(x=x, suspect=s_, fail=f_, method=m, pre=[longer])
                             yield dict(x=x, suspect=s_, fail=f_, method=m, pre=[longer[:ln + 50], longer])
+        run_cases(acc, gen(), check_case)
+    elif kind == "calls":
+        def gen():
+            for x in alpha.all_seqs((0.0, 1.0, 3.0, alpha.NAN), 3, 4):
+                for m in METHODS:
+                    for s_, f_ in ((1.0, 2.0), (0.5, None), (None, 1.5), (2.0, 1.0)):
+                        for pos in (3, 4):
+                            yield dict(x=list(x), suspect=s_, fail=f_, method=m, positional=pos)
+                        for carrier in ("mai", "mai_nomask"):
+                            yield dict(x=list(x), suspect=s_, fail=f_, method=m, carrier=carrier)
         run_cases(acc, gen(), check_case)
     elif kind == "justabove":
         # differences a hair above / below / exactly on a threshold (all exact binary fractions): no tolerance band
